@@ -65,7 +65,55 @@ def parseAct (w : String) : Option MAct :=
 /-- `keys`: the keys to report the list lengths of -/
 def MRun.report (r : MRun) (keys : List Nat) : String :=
   let lens := keys.map fun k => s!"{k}:{r.s.len k}"
-  s!"len={",".intercalate lens} blocked={",".intercalate (r.ids.map toString)}"
+  s!"len={",".intercalate lens};blocked={",".intercalate (r.ids.map toString)}"
+
+/-- what distinguishes two runs (the list lengths of the reported keys, the clients, their numbers) -/
+def MRun.sig (r : MRun) (keys : List Nat) : List Nat × List MC × List Nat := (keys.map r.s.len, r.s.cs, r.ids)
+
+def dedupe (keys : List Nat) (rs : List MRun) : List MRun :=
+  rs.foldl (fun acc r => if acc.any (fun x => x.sig keys == r.sig keys) then acc else acc ++ [r]) []
+
+/-- every quiescent state reachable by letting those in motion act in ANY order: which of two woken clients
+    looks at the lists first is up to the scheduler, and can decide who is served -/
+def MRun.settleAll (keys : List Nat) : Nat → MRun → List MRun
+  | 0, r => [r]
+  | fuel + 1, r =>
+    let movers := (r.s.cs.zipIdx.filter fun x => x.1.pending || x.1.token.isSome).map fun x => (x.2, x.1.pending)
+    if movers.isEmpty then [r]
+    else dedupe keys (movers.flatMap fun (i, pend) =>
+      MRun.settleAll keys fuel (r.stepAt (if pend then .look i else .retry i) i))
+
+def MRun.actAll (keys : List Nat) (r : MRun) : MAct → List MRun
+  | .reg ks =>
+    let r1 : MRun := { r with s := mstep true r.s (.register ks), ids := r.ids ++ [r.next], next := r.next + 1 }
+    r1.settleAll keys 64
+  | .push ks => ({ r with s := ks.foldl (fun s (kn : Nat × Nat) => mstep true s (.push kn.1 kn.2)) r.s }).settleAll keys 64
+  | .steal k => ({ r with s := mstep true r.s (.steal k) }).settleAll keys 64
+  | .leave c =>
+    match r.ids.idxOf? c with
+    | some i => (r.stepAt (.leave i) i).settleAll keys 64
+    | none => [r]
+
+def parseStep (w : String) : Option (MAct × String) :=
+  match w.splitOn "~" with
+  | [a, obs] => (parseAct a).map fun x => (x, obs)
+  | _ => none
+
+/-- the scenario with what the implementation showed after every action: the model follows every schedule
+    that explains the observations so far; `ok` if some schedule explains them all -/
+def runScenarioObs (words : List String) (keys : List Nat) : String :=
+  match words.mapM parseStep with
+  | none => "bad-op"
+  | some steps =>
+    let rec go (i : Nat) (cands : List MRun) : List (MAct × String) → String
+      | [] => "ok"
+      | (a, obs) :: rest =>
+        let next := dedupe keys (cands.flatMap fun r => r.actAll keys a)
+        let fit := next.filter fun r => r.report keys == obs
+        if fit.isEmpty then
+          s!"mismatch at action {i}: observed {obs}; the model allows {" | ".intercalate ((next.map fun r => r.report keys).eraseDups)}"
+        else go (i + 1) fit rest
+    go 0 [{}] steps
 
 def runScenario (words : List String) (keys : List Nat) : String :=
   match words.mapM parseAct with
